@@ -7,7 +7,7 @@ CONSTANTS
   MaxRules = 5
   FixedRules = {}
   EdbChoices <- E1Edbs
-  ExtraRules <- CycleCut
+  ExtraRules <- ProvExtra
   Randomized = TRUE
   Keep <- KeepProv
 INVARIANT Emit
